@@ -106,6 +106,20 @@ def array_len(ty):
     return int(m.group(1)) if m else None
 
 
+# documented result ranges of std functions
+STD_RANGES = {
+    "core::time::Duration::subsec_nanos": (0, 999_999_999),
+    "core::time::Duration::subsec_micros": (0, 999_999),
+    "core::time::Duration::subsec_millis": (0, 999),
+    "core::char::methods::<impl char>::len_utf8": (1, 4),
+    "core::num::<impl u8>::to_ascii_lowercase": (0, 255),
+    "core::time::Duration::as_secs": (0, (1 << 64) - 1),
+    "core::time::Duration::as_nanos": (0, ((1 << 64) - 1) * 1_000_000_000 + 999_999_999),
+    "core::time::Duration::as_micros": (0, ((1 << 64) - 1) * 1_000_000 + 999_999),
+    "core::time::Duration::as_millis": (0, ((1 << 64) - 1) * 1_000 + 999),
+}
+
+
 class AV:
     """Abstract value."""
     __slots__ = ("iv", "sid", "rel", "cmp", "ref", "ovf", "tr", "mod")
@@ -811,6 +825,8 @@ class Analyzer:
                     st.lens[sid] = (max(0, hi.iv[0] - lo.iv[1]), max(0, min(hi.iv[1], ln[1]) - lo.iv[0]))
                 return AV(sid=sid)
             return self.top_of_type(dest_ty, tag=where, st=st)
+        if path in STD_RANGES:
+            return AV(iv=STD_RANGES[path])
         if path in ("util::t::Constant::value", "util::t::Constant::bound") and a0.iv is not None:
             return AV(iv=a0.iv)
         # ---- integer helpers
@@ -1184,6 +1200,7 @@ class Analyzer:
         inq = {0}
         iters = 0
         self.pre = {}
+        self.fedges = {}
         while work:
             iters += 1
             if iters > self.MAX_ITERS:
@@ -1194,6 +1211,7 @@ class Analyzer:
             self.visits[bi] += 1
             pre, outs = self.block_out(bi, entry[bi])
             self.pre[bi] = pre
+            self.fedges[bi] = set(outs.keys())
             for tg, s in outs.items():
                 old = entry.get(tg)
                 if old is None:
